@@ -273,6 +273,16 @@ func cmdRenderRandom(args []string) error {
 			}
 			c.Rows = append(c.Rows, l)
 		}
+		if i%40 == 7 {
+			// output sizes at and beyond the 16-bit boundary, with content that does and does not fit
+			c.Size = []int{65535, 65536, 65537, 70000, 131072}[rng.Intn(5)]
+			c.Msink, c.Utf = false, false
+			nr = 2 + rng.Intn(3)
+			c.Rows = nil
+			for k := 0; k < nr; k++ {
+				c.Rows = append(c.Rows, 15000+rng.Intn(30000))
+			}
+		}
 		ev := renderFamily(c, nr+2)
 		if len(ev.Pages) > 0 {
 			// trim the family: keep up to two pages past the last one that rendered
